@@ -12,6 +12,7 @@ import (
 	"errors"
 	"fmt"
 	"io"
+	"runtime"
 	"testing"
 	"time"
 
@@ -28,6 +29,10 @@ type c06Case struct {
 	Frag      string          `json:"frag"` // one short eofdata zeros error
 	FragSeed  int             `json:"frag_seed"`
 	ErrAt     int             `json:"err_at"`
+	// Prelude: another specification, chunked to the end over PreludeSize bytes
+	// before the stream under test ("" = none)
+	Prelude     string `json:"prelude,omitempty"`
+	PreludeSize int    `json:"prelude_size,omitempty"`
 }
 
 func c06Gen(t *rapid.T, tier string) any {
@@ -39,10 +44,13 @@ func c06Gen(t *rapid.T, tier string) any {
 	kind := rapid.SampledFrom([]string{"size", "size", "rabin3", "rabin3", "rabin1", "buzhash", "default"}).Draw(t, "speckind")
 	switch kind {
 	case "size":
-		n := rapid.SampledFrom([]int{1, 2, 7, 64, 1000, 4096, 65536, 262144}).Draw(t, "n")
+		n := rapid.SampledFrom([]int{1, 2, 7, 64, 1000, 4096, 65536, 262144, 300000, 400000, 524288}).Draw(t, "n")
 		c.Spec = fmt.Sprintf("size-%d", n)
 		if n <= 7 {
 			maxSize = 4096
+		}
+		if n > 262144 {
+			maxSize = 3*n + 1 // several chunks from the larger pool buckets
 		}
 	case "rabin3":
 		min := rapid.SampledFrom([]int{16, 17, 64, 256, 4096}).Draw(t, "min")
@@ -81,6 +89,10 @@ func c06Gen(t *rapid.T, tier string) any {
 	c.FragSeed = rapid.IntRange(0, 1<<20).Draw(t, "fseed")
 	if c.Size > 0 {
 		c.ErrAt = rapid.IntRange(0, c.Size).Draw(t, "errat")
+	}
+	if rapid.IntRange(0, 2).Draw(t, "hasprelude") == 0 {
+		c.Prelude = rapid.SampledFrom([]string{"buzhash", "buzhash", "default", "size-65536", "size-400000", "rabin-512"}).Draw(t, "prelude")
+		c.PreludeSize = rapid.SampledFrom([]int{0, 1000, 300000, 700000}).Draw(t, "presize")
 	}
 	c.Cfg = verifsim.GenConfig(t, 0, 100, time.Minute, nil)
 	return c
@@ -182,7 +194,10 @@ func c06Chunks(sp Splitter) ([][]byte, error) {
 			}
 			return out, err
 		}
-		out = append(out, append([]byte(nil), b...))
+		// the chunk is kept as returned, like the importers keep it inside the
+		// nodes they build: a splitter that hands out memory it (or a buffer
+		// pool) reuses while the chunk is still referenced corrupts it
+		out = append(out, b)
 	}
 	return out, errors.New("splitter never finished")
 }
@@ -209,8 +224,23 @@ func c06Limits(spec string) (minSz, maxSz int) {
 
 func c06Run(t *testing.T, ci any, trace bool) *verifsim.Result {
 	c := ci.(*c06Case)
+	// Buffer pools are live in this check (its runs have one goroutine and no
+	// schedule to keep repeatable); they are emptied before every run, so that a
+	// run sees no buffers of earlier runs and a replay behaves like the worker.
+	runtime.VerifPools(true)
+	defer runtime.VerifPools(false)
+	runtime.GC()
+	runtime.GC()
 	return verifsim.Run(t, c.Cfg, trace, func(s *verifsim.Sim) {
 		input := c06Input(c)
+		if c.Prelude != "" {
+			// another stream chunked to its end first: splitters share buffer pools
+			pre, err := FromString(bytes.NewReader(c06Input(&c06Case{InputKind: "random", Size: c.PreludeSize, DataSeed: c.DataSeed + 1})), c.Prelude)
+			if err == nil {
+				_, _ = c06Chunks(pre)
+				s.Logf("prelude %s over %d bytes", c.Prelude, c.PreludeSize)
+			}
+		}
 		ref, err := FromString(bytes.NewReader(input), c.Spec)
 		if err != nil {
 			s.Failf("spec-rejected", "FromString rejected the specification %q: %v", c.Spec, err)
